@@ -63,7 +63,7 @@ RULE = ("every (sink, chart-type variant) of the sink catalogue x every string o
         "Non-trivial = the string contains at least one character outside [A-Za-z0-9]; cases are distinct "
         "by construction (sink, variant, string).")
 ASSUMPTIONS = [
-    "string-set bounded: M = 134 strings (90 over the 9-character alphabet up to length 2, 44 curated); longer combinations of metacharacters are not explored",
+    "string-set bounded: M = 90 strings over the 9-character alphabet up to length 2 plus the curated list; longer combinations of metacharacters are not explored",
     "sink catalogue is hand-written from the public API; entry points not in the catalogue are not explored "
     "(floor: >= 40 sink names, >= 8 chart families)",
     "reference model: the same call with the benign string 'X' (tag skeleton of every XML member), bare lxml",
@@ -89,6 +89,8 @@ CURATED = [
     "XLSX", "DOCX", "PPTX", "None", "True", "0", "General",
     # the documented maximum length of a core property (boundary)
     MAX255,
+    # look-alikes of the _xHHHH_ escape for code points the library never escapes: plain data
+    "_x0041_", "col_x0041_total",
 ]
 
 
@@ -510,7 +512,10 @@ def _chart_data(kind, what, m):
     return cd
 
 
-def _chart_reader(kind, what, m):
+DATE_AXIS_FAMILIES = ("area", "bar", "line")    # date categories give these a c:dateAx carrying the categories' format
+
+
+def _chart_reader(kind, what, m, family=None):
     """(reader(chart) , expected) for chart-data field `what`."""
     if what == "series-name":
         return (lambda ch: (ch.plots[0].series[0].name, [s.name for s in ch.series])), (m, [m])
@@ -519,7 +524,15 @@ def _chart_reader(kind, what, m):
     if what == "category-label-multilevel":
         return (lambda ch: tuple(ch.plots[0].categories.flattened_labels)), ((m, m), (m, "s2"), ("t2", "s3"))
     if what == "categories-number-format":
-        return (lambda ch: _format_codes(ch.part.blob, ("cat",))), [m]
+        # the cached format of the category reference AND, where the chart has a date axis, what the public reader of
+        # that axis' tick labels reports
+        def rd(ch):
+            try:
+                ax = ch.category_axis.tick_labels.number_format
+            except ValueError:
+                ax = "<no category axis>"
+            return _format_codes(ch.part.blob, ("cat",)), ax
+        return rd, ([m], m if family in DATE_AXIS_FAMILIES else None)
     parents = {"cat": ("val",), "xy": ("xVal", "yVal"), "bubble": ("xVal", "yVal", "bubbleSize")}[kind]
     return (lambda ch: _format_codes(ch.part.blob, parents)), [m]
 
@@ -538,7 +551,11 @@ def _chart_data_sink(family, kind, member, what, mode):
         else:
             chart = slide.shapes.add_chart(ct, 10, 10, 5000, 5000, _chart_data(kind, None, BENIGN)).chart
             chart.replace_data(_chart_data(kind, what, m))
-        rd, exp = _chart_reader(kind, what, m)
+        # (replace_data re-writes the data, not the axes: the axis reader is part of the add_chart sinks only)
+        rd, exp = _chart_reader(kind, what, m, family if mode == "add_chart" else None)
+        if what == "categories-number-format" and exp[1] is None:
+            rd0 = rd
+            rd = lambda ch: (rd0(ch)[0], None)   # noqa: E731  (no date axis in this family: cache only)
         return (lambda: rd(chart)), (lambda p2, b: rd(_chart_of(p2))), exp
     return Sink("%s.%s@%s" % (mode, what, family), fn, variant=member)
 
@@ -589,6 +606,87 @@ def _chart_font_name(prs, m, tmp):
     return (lambda: chart.font.name), (lambda p2, b: _chart_of(p2).font.name), m
 
 
+
+# ---- twin sinks: two strings that differ only by case / a trailing blank, stored side by side ----------------
+# "Stored so that the reader returns the same string" also holds when a near-identical string is already stored
+# in the same part: a lookup that folds case or strips blanks (relationship matching, category / series look-up by
+# label) must not hand the second caller the first caller's string. m is paired with twin(m); for strings without
+# cased letters the swap-case twin equals m (sharing one stored copy is fine, both must still read m).
+
+TWINS = {"swapcase": lambda m: m.swapcase(), "blank": lambda m: m + " "}
+
+
+def _twin_hyperlinks(how, first, second):
+    tw = TWINS[how]
+
+    def fn(prs, m, tmp):
+        slide = _blank(prs)
+        tb = _mk_shape(slide, "textbox")
+        para = tb.text_frame.paragraphs[0]
+        r1, r2 = para.add_run(), para.add_run()
+        r1.text, r2.text = "one", "two"
+        shp = _mk_shape(slide, "autoshape")
+        targets = {"run1": r1.hyperlink, "run2": r2.hyperlink, "click": shp.click_action.hyperlink}
+        targets[first].address = m
+        targets[second].address = tw(m)
+
+        def rd(sl):
+            shapes = list(sl.shapes)
+            runs = shapes[-2].text_frame.paragraphs[0].runs
+            t = {"run1": runs[0].hyperlink, "run2": runs[1].hyperlink, "click": shapes[-1].click_action.hyperlink}
+            return (t[first].address, t[second].address)
+        return (lambda: rd(slide)), (lambda p2, b: rd(p2.slides[0])), (m, tw(m))
+    return Sink("hyperlink.address/%s+%s twin(%s)" % (first, second, how), fn, ok=lambda m: tw(m) != m)
+
+
+def _twin_shape_names(how):
+    tw = TWINS[how]
+
+    def fn(prs, m, tmp):
+        slide = _blank(prs)
+        a, b = _mk_shape(slide, "autoshape"), _mk_shape(slide, "textbox")
+        a.name, b.name = m, tw(m)
+        return ((lambda: (a.name, b.name)),
+                (lambda p2, bl: tuple(sh.name for sh in list(p2.slides[0].shapes)[-2:])), (m, tw(m)))
+    return Sink("shape.name twin(%s)" % how, fn, ok=lambda m: tw(m) != m)
+
+
+def _twin_chart_labels(how, mode):
+    tw = TWINS[how]
+
+    def data(m):
+        from pptx.chart.data import CategoryChartData
+        cd = CategoryChartData()
+        cd.categories = [m, tw(m), "c3"]
+        cd.add_series(m, (1, 2, 3))
+        cd.add_series(tw(m), (4, 5, 6))
+        return cd
+
+    def fn(prs, m, tmp):
+        from pptx.enum.chart import XL_CHART_TYPE
+        slide = _blank(prs)
+        if mode == "add_chart":
+            chart = slide.shapes.add_chart(XL_CHART_TYPE.COLUMN_CLUSTERED, 10, 10, 5000, 5000, data(m)).chart
+        else:
+            chart = slide.shapes.add_chart(XL_CHART_TYPE.COLUMN_CLUSTERED, 10, 10, 5000, 5000, data(BENIGN)).chart
+            chart.replace_data(data(m))
+
+        def rd(ch):
+            return ([c.label for c in ch.plots[0].categories][:2], [s.name for s in ch.plots[0].series])
+        return (lambda: rd(chart)), (lambda p2, b: rd(_chart_of(p2))), ([m, tw(m)], [m, tw(m)])
+    return Sink("%s.category-label+series-name twin(%s)" % (mode, how), fn, ok=lambda m: tw(m) != m)
+
+
+def twin_sinks():
+    out = []
+    for how in TWINS:
+        for first, second in (("run1", "run2"), ("click", "run1"), ("run1", "click")):
+            out.append(_twin_hyperlinks(how, first, second))
+        out.append(_twin_shape_names(how))
+        for mode in ("add_chart", "replace_data"):
+            out.append(_twin_chart_labels(how, mode))
+    return out
+
 CAT_FIELDS = ["series-name", "category-label", "category-label-multilevel", "number-format",
               "series-number-format", "categories-number-format"]
 XY_FIELDS = ["series-name", "number-format", "series-number-format"]
@@ -617,6 +715,7 @@ def catalogue(thorough):
     out.append(Sink("text_frame.text/textbox", _textbox_text, ok=_text_ok))
     for p in CORE_PROPS:
         out.append(_core_prop(p))
+    out.extend(twin_sinks())
     out.append(Sink("data_labels.number_format", _data_labels_nf))
     out.append(_tick_labels_nf("value_axis"))
     out.append(_tick_labels_nf("category_axis"))
@@ -711,16 +810,19 @@ _BASE = {}
 
 
 def _baseline(sink):
+    """Skeleton of the benign run. The benign string is a case of the property like any other: when the sink already
+    fails with it, that is reported as the sink's violation (every other string of the sink is then not judged)."""
     k = sink.key
     if k not in _BASE:
         try:
             skel, got2, expected = _execute(sink, BENIGN)
+            if got2 != expected:
+                raise CaseError("readback-reopen", "after save and re-open the reader returned %r, expected %r" % (got2, expected))
+            _BASE[k] = skel
         except CaseError as e:
-            raise HarnessError("sink %s/%s fails with the benign string: %s %s" % (sink.name, sink.variant, e.rule, e.msg))
-        if got2 != expected:
-            raise HarnessError("sink %s/%s: reader after re-open gives %r for the benign string, catalogue expects %r"
-                               % (sink.name, sink.variant, got2, expected))
-        _BASE[k] = skel
+            _BASE[k] = CaseError(e.rule, "already with the benign string %r: %s" % (BENIGN, e.msg))
+    if isinstance(_BASE[k], CaseError):
+        raise _BASE[k]
     return _BASE[k]
 
 
@@ -740,8 +842,8 @@ def _skel_diff(base, skel):
 
 def run_case(sink, m):
     """-> (rule, message) of the first failing step, or (None, note)."""
-    base = _baseline(sink)
     try:
+        base = _baseline(sink)
         skel, got2, expected = _execute(sink, m, base)
     except CaseError as e:
         return e.rule, e.msg
